@@ -732,6 +732,16 @@ func stateProbeStreams(r *Rng) []*RecStream {
 			{Data: &DataOp{Local: 4, Bytes: le32(ts+20) + le32(uint32(int64(ts+20)+off))}},
 		}})
 	}
+	// 2c. the same field once with a legal base type byte and once with the same type
+	// number but the wrong multi-byte flag (must be rejected, whichever comes first)
+	for _, tb := range []int{0x83, 0x03, 0x84, 0x04, 0x02, 0x82} {
+		out = append(out, &RecStream{Header: hdr(), Ops: []Op{
+			{Def: &DefOp{Local: 0, Arch: "le", Global: 0, Fields: [][3]int{{0, 1, 0}}}},
+			{Data: &DataOp{Local: 0, Bytes: "04"}},
+			{Def: &DefOp{Local: 1, Arch: "le", Global: 20, Fields: [][3]int{{3, 1, 2}, {200, 2, tb}}}},
+			{Data: &DataOp{Local: 1, Bytes: "501234"}},
+		}})
+	}
 	// 3. activity: activity.local_timestamp only
 	out = append(out, &RecStream{Header: hdr(), Ops: []Op{
 		{Def: &DefOp{Local: 0, Arch: "be", Global: 0, Fields: [][3]int{{0, 1, 0}}}},
